@@ -479,14 +479,15 @@ class AbstractExcelInPython(ABC):
         return date.year
 
     def _iferror(self, condition_function, when_error):
+        # the fallback arrives as a function too: it is evaluated (and may fail) only when it is needed
+        fallback = when_error if callable(when_error) else lambda: when_error
         try:
             cell = condition_function()
-            if self._find_error_in_list([cell]):
-                return when_error
-            else:
-                return cell
+            is_error = bool(self._find_error_in_list([cell]))
         except:
-            return when_error
+            is_error = True
+
+        return fallback() if is_error else cell
 
     def _left(self, text, num_chars):
         if num_chars is None:
